@@ -6,9 +6,9 @@ CFG = dict(
           "and no goroutine), C14_idle (Q: quiescent and every issued call terminated => registry empty, no stream loop alive, the "
           "read loop holds nothing) and C14_cancel_released (Q: no stream loop survives the context of its RPC) in coq/Props/C14.v, "
           "over all label sequences of the small-step client model coq/Model/Client.v (unbounded calls, any inbound envelopes, "
-          "faults, interleavings); the model is run lock-step against the real client on every run. Server half: builder sv.",
+          "faults, interleavings); the model is run lock-step against the real client on every run. Server half (coq/Model/Server.v, Proofs/ServerInv.v, ServerLive.v, over all label sequences): C14_server_bounded (the registry of a server connection has exactly one entry per live stream-handler goroutine, in every reachable state) and C14_server_idle (Q: quiescent, every handler returned, writes not blocked or connection over => registry empty); the goroutine side is C12_never_stalls / C10_no_leak; the server model is run lock-step against the real server by ./check C10 and C12.",
     props="Props/C14.v",
-    theorems=["C14_bounded", "C14_released", "C14_idle", "C14_cancel_released"],
+    theorems=["C14_bounded", "C14_released", "C14_idle", "C14_cancel_released", "C14_server_bounded", "C14_server_idle"],
     imports=["Model.Client", "Check.ClientC", "Check.C14c"],
     case_type="c14case",
     find_bad_from="Check.C14c.find_bad_from",
